@@ -24,7 +24,7 @@ _ELEMENTWISE = {
 }
 
 _CASTS = {"float64", "float32", "float_", "double", "complex128", "complex64", "asarray", "ascontiguousarray",
-          "asfarray", "atleast_1d"}
+          "asfarray"}
 _INTCASTS = {"int64", "int32", "int16", "int8", "uint32", "uint64", "uint8", "uint16", "intp"}
 
 
@@ -55,6 +55,13 @@ def call(ip, name, args, kw):
         if isinstance(a, Opaque):
             return a
         return S(a)
+    if name == "atleast_1d":
+        a = args[0]
+        if isinstance(a, np.ndarray):
+            return a if a.ndim >= 1 else a.reshape((1,))
+        if isinstance(a, (list, tuple)):
+            return to_obj_array(a)
+        return to_obj_array([a])
     if name in _INTCASTS:
         a = args[0]
         if is_static_int(a):
@@ -163,8 +170,34 @@ def call(ip, name, args, kw):
             return ip.ite(c, a, b)
         raise OutsideFragment("np.where with one argument")
     if name == "arange":
-        vals = [as_int(a) for a in args]
-        return to_obj_array(list(range(*vals)))
+        if all(is_static_int(a) for a in args):
+            vals = [as_int(a) for a in args]
+            return to_obj_array(list(range(*vals)))
+        vals = [S(a) for a in args]
+        if not all(v.is_number for v in vals):
+            raise OutsideFragment("np.arange with symbolic bounds")
+        lo, hi, stp = (sp.Integer(0), vals[0], sp.Integer(1)) if len(vals) == 1 else (vals[0], vals[1], vals[2] if len(vals) > 2 else sp.Integer(1))
+        n = int(sp.ceiling((hi - lo) / stp))
+        return to_obj_array([lo + k * stp for k in range(max(n, 0))])
+    if name == "isreal":
+        def isreal(x):
+            x = S(x)
+            if x.is_real is True:
+                return True
+            if x.is_real is False or x.has(sp.I):
+                return False
+            raise OutsideFragment(f"np.isreal of a term with unknown reality: {x}")
+        a = args[0]
+        if isinstance(a, np.ndarray):
+            return np.array([isreal(x) for x in a.ravel()], dtype=bool).reshape(a.shape)
+        return isreal(a)
+    if name == "argmin" or name == "argmax":
+        a = to_obj_array(args[0]).ravel()
+        if not all(S(x).is_number for x in a):
+            raise OutsideFragment(f"np.{name} of symbolic data")
+        vals = [S(x) for x in a]
+        pick = min if name == "argmin" else max
+        return vals.index(pick(vals))
     if name == "linspace":
         a, b, n = S(args[0]), S(args[1]), as_int(args[2] if len(args) > 2 else kw.get("num", 50))
         if n == 1:
@@ -185,6 +218,8 @@ def call(ip, name, args, kw):
             return bool(S(args[0]).is_finite)
         return sp.Function(name)(*[S(a) for a in args if not isinstance(a, (np.ndarray, list, tuple))])
     if name == "all" or name == "any":
+        if isinstance(args[0], np.ndarray) and args[0].dtype == bool:
+            return bool(args[0].all()) if name == "all" else bool(args[0].any())
         a = to_obj_array(args[0]).ravel()
         vals = [ip.truth(x) for x in a]
         if any(v is None for v in vals):
